@@ -136,6 +136,7 @@ package comdoc
 //@   loop 0 sig "for len(stack) > 0" invariant 0 <= r.rootStorage && r.rootStorage < len(r.Files) && (stack == nil || allocated(stack)) && (files == nil || allocated(files)) && \
 //@        forall(k, 0, len(files), files[k] != nil)
 //@   ensures @every_listed_entry_exists ret1 == nil ==> forall(k, 0, len(ret0), ret0[k] != nil)
+//@   modifies nothing
 //@
 //@ extern (RawDirEnt).Name
 //@   pure
@@ -160,6 +161,7 @@ package comdoc
 //@   property C11
 //@   nopanic
 //@   requires readerOK(r)
+//@   ensures @root_storage_is_a_directory_entry ret0 == nil ==> 0 <= r.rootStorage && r.rootStorage < len(r.Files)
 //@   allocbound 0 8192
 //@   allocbound 1 8192
 //@   allocbound 2 8 * len(r.Files)
@@ -167,3 +169,16 @@ package comdoc
 //@   loop 0 sig "for sector := r.Header.DirNextSector; sector >= 0;" invariant readerOK(r) && len(raw) == count && len(cooked) == count && 0 <= sectors && \
 //@        (rootIndex >= 0 ==> rootIndex < len(files) + 0) && -1 <= rootIndex && (files == nil || allocated(files))
 //@   loop 1 sig "for i, raw := range raw" invariant -1 <= rangeindex && rangeindex < count && len(cooked) == count && readerOK(r) && -1 <= rootIndex && rootIndex < len(files) + count
+//@
+//@ macro cdfOK(r *ComDoc) bool = r != nil && r.Header != nil && 0 <= r.rootStorage && r.rootStorage < len(r.Files) && \
+//@        0 <= r.ShortSectorSize && r.ShortSectorSize <= r.SectorSize && r.SectorSize <= 268435456
+//@
+//@ func (*ComDoc).ReadStream
+//@   property C11 C02
+//@   nopanic
+//@   requires cdfOK(r) && e != nil
+//@   allocbound 0 268435456
+//@   modifies nothing
+//@
+//@ extern (DirEnt).Name
+//@   pure
